@@ -56,7 +56,7 @@ def make_classify(tu):
             return ("term", "report_forbidden")
         if n == A["send_ok_report"]:
             return ("sym", "ok")
-        if n == A["side_effect_action"]:
+        if n == lib.side_effect_action(tu):
             return ("sym", "action")
         if n == A["set_limits"]:
             return ("sym", "set_limits")
@@ -258,7 +258,7 @@ def report(ctx, tu, prefix_filter, unit=None):
     # the automaton reads the protocol off calls of these functions; when one of them no longer exists under its
     # name (renamed / merged away) nothing can be concluded from its absence on a path
     need = [A["is_forbidden"], A["can_be_called"], A["is_saturated"], A["increment_call"], A["retire_predecessors"],
-            A["retire"], A["validate"], A["side_effect_action"], A["send_ok_report"], A["unlink"]]
+            A["retire"], A["validate"], lib.side_effect_action(tu)]
     missing = [n for n in need if not tu.find(n, body=False)]
     if missing and tu.find(A["run_actions"]):
         for rid in ALL_RULES:
